@@ -35,6 +35,8 @@ func TestFamily(t *testing.T) {
 		scs = regFamily(behs)
 	case "cons":
 		scs = consFamily(behs)
+	case "upgr":
+		scs = upgrFamily(behs)
 	case "grace":
 		scs = graceFamily()
 	case "direct":
